@@ -20,9 +20,9 @@ FUNCTIONS = ['functions:OP_TAPROOT', 'functions:OP_EVAL', 'functions:OP_CHECK_SI
              'functions:OP_SHA256', 'functions:OP_CONCAT', 'functions:OP_CLAMP_SCALAR', 'functions:OP_DERIVE_POINT', 'functions:OP_ADD_POINTS',
              'functions:OP_CALL', 'functions:OP_DEF', 'functions:OP_IF_ELSE', 'functions:OP_SWAP', 'functions:OP_SIZE', 'functions:OP_EQUAL']
 BOUNDS = {'quick': {'committed_script': 'symbolic bytes of length 1..3 (its evaluation is summarised and logged)', 'internal_key': 'symbolic valid point',
-                    'witness_states': 'stacks of 0..3 items with lengths from {1, 2, 32, 64, 65}', 'sigfields': 'two fields; allowed operand 00 and 03'},
+                    'witness_states': 'stacks of 0..3 items with lengths from {1, 2, 32, 64, 65}', 'sigfields': 'two fields; allowed operand 00 and 03, on the flagged key path also 20, 40, 80, 5a (flag byte symbolic)'},
           'thorough': {'committed_script': 'length 1..8', 'internal_key': 'as quick', 'witness_states': 'as quick plus 4-item stacks',
-                       'sigfields': 'as quick; allowed 00, 01, 03, ff'}}
+                       'sigfields': 'as quick; allowed 00, 01, 03, ff, on the flagged key path every single bit and 5a, a5, 7f, fe'}}
 OUTSIDE = ['libsodium encodings (generic-group model); degenerate neutral elements', 'SHA-256 itself',
            'non-native lock for witnesses that exhaust the call budget (the property\'s stated exception)']
 ASSUMPTIONS = ['generic-group model (sx/algebra.py) for the root arithmetic and for signatures made with x + t; signature oracle for the key path from '
@@ -239,7 +239,11 @@ def r_generic(inputs, params, obligation):
     ref_root = RF.nacl.bindings.crypto_core_ed25519_add(X, RF.nacl.bindings.crypto_scalarmult_ed25519_base_noclamp(bytes(h)))
     if lock.bytes[2:34] != ref_root or len(lock.bytes) != 36:
         bad.append('root')
-    for flag in (0, 1):
+    flags = [0, 1]
+    s0 = inputs.get('s0')
+    if params.get('shape') == [65] and isinstance(s0, (bytes, bytearray)) and len(s0) == 65:
+        flags.append(s0[64])           # the flag byte of the model's signature, on a real signature by the root key
+    for flag in flags:
         wit = RT.make_taproot_witness_keyspend(seed, dict(sf), script, None, '%02x' % flag)
         got = tapescript.run_auth_scripts([wit, lock], dict(sf))
         if got != ((flag & ~allowed & 0xff) == 0):
@@ -287,7 +291,11 @@ SHAPES = [[], [64], [65], [63], [1], [2, 32], [3, 32], [32], [1, 2, 32], [64, 32
 
 def _p_step(tier):
     als = (0, 3) if tier == 'quick' else (0, 1, 3, 255)
-    return [{'shape': sh, 'allowed': a} for sh in SHAPES for a in als]
+    out = [{'shape': sh, 'allowed': a} for sh in SHAPES for a in als]
+    # key path with a flag byte: every single permission bit and some mixed masks (the flag byte itself is symbolic)
+    more = (0x20, 0x40, 0x80, 0x5a) if tier == 'quick' else (0x04, 0x08, 0x10, 0x20, 0x40, 0x80, 0x5a, 0xa5, 0x7f, 0xfe)
+    out += [{'shape': [65], 'allowed': a} for a in more if a not in als]
+    return out
 
 
 def _p_nn(tier):
